@@ -4,7 +4,7 @@
    shorter vector (C05), and that dropping it restores prefix ++ suffix (C01/C10). *)
 From Coq Require Import ZArith List Bool Lia.
 From MV Require Import Ast Eval Scalar Machine.
-From MV.Proofs Require Import Arith Logic Prim View OpsLocal Guards Drops.
+From MV.Proofs Require Import Arith Logic Prim View OpsLocal Guards Drops Retain.
 Import ListNotations.
 Open Scope Z_scope.
 
@@ -215,5 +215,228 @@ Section DrainIt.
     intros Hinv. destruct (drain_protocol steps s d b bl off i j r Hinv) as (d' & i' & j' & Hs & _).
     eexists. exists d'. split; [exact Hs|]. destruct Hinv as [Hv Hb _ _ _ _ _ Hi].
     split; [exact Hv|]. split; [exact Hb|]. intros k Hk. apply Hi. left. exact Hk.
+  Qed.
+
+  (* ---------------------------------------------------------------- dropping a Drain *)
+  (* the guard's tail move when the window has been emptied (i = j): the tail [r, r+rem) is moved down
+     to [len, len+rem) and the length restored: the vector becomes prefix ++ suffix *)
+  Definition guard_tail (d : drain_it) : M unit :=
+    if 0 <? d_rem d then
+      let v := d_vec d in
+      vl <- len v ;;
+      p <- as_ptr cfg v ;;
+      slot_copy cfg (d_rpos d) (padd cfg p vl) (d_rem d) ;;;
+      set_len v (vl + d_rem d)
+    else ret tt.
+
+  Lemma drain_guard_unfold d : drain_guard cfg d = bind (drain_rest cfg (window_fuel d) d) guard_tail.
+  Proof. reflexivity. Qed.
+
+  Lemma guard_tail_spec s d b bl off i r :
+    drain_inv s d b bl off i i r ->
+    let n := d_rem d in
+    let f' := if n <=? 0 then slots bl else (fun k => if (h_len bl <=? k) && (k <? h_len bl + n) then slots bl (k - h_len bl + r) else slots bl k) in
+    let bl' := if 0 <? n then with_hdr (with_slots bl f') (h_len bl + n) (h_cap bl) (h_align bl) else bl in
+    exists s', guard_tail d s = (Val tt, s') /\ vec_at s' (d_vec d) b bl' /\ frame_block s s' b /\
+               block_ok cfg bl' /\
+               velems bl' = velems bl ++ window bl r (r + n) /\
+               init_upto (slots bl') (h_len bl').
+  Proof.
+    intros Hinv n f' bl'.
+    pose proof Hinv as [Hv Hb Hco Hp He Hr Ho Hi].
+    pose proof (bo_len _ _ Hb) as Hlen.
+    unfold guard_tail. fold n.
+    destruct (Z.ltb_spec 0 n) as [Hpos|Hz]; subst bl'.
+    - cbv zeta. rewrite (bind_val _ _ _ _ _ (len_at cfg _ _ _ _ Hcfg Hv Hb)).
+      destruct (as_ptr_at cfg _ _ _ _ Hcfg Hv Hb) as (off' & Hco' & Hpt).
+      rewrite Hco in Hco'. inversion Hco'; subst off'.
+      rewrite (bind_val _ _ _ _ _ Hpt). rewrite Hr. simpl padd. rewrite ?Z.add_0_l.
+      assert (Hcopy : slot_copy cfg (PElt b off r) (PElt b off (h_len bl)) n s =
+                      (Val tt, upd_block s b (with_slots bl f'))).
+      { subst f'. assert (E : (n <=? 0) = false) by (apply Z.leb_gt; lia). rewrite E.
+        apply (slot_copy_at cfg s b bl off r (h_len bl) n Hcfg (proj2 Hv) Hb Hco); unfold n in *; lia. }
+      rewrite (bind_val _ _ _ _ _ Hcopy).
+      set (bl1 := with_slots bl f').
+      assert (Hb1 : block_ok cfg bl1) by (apply block_ok_with_slots; exact Hb).
+      assert (Hv1 : vec_at (upd_block s b bl1) (d_vec d) b bl1) by (apply vec_at_upd with (bl := bl); exact Hv).
+      rewrite (set_len_at cfg _ _ _ _ (h_len bl + n) Hcfg Hv1 Hb1).
+      eexists. split; [reflexivity|].
+      split; [apply vec_at_upd with (bl := bl1); exact Hv1|].
+      split; [eapply frame_trans; apply frame_upd|].
+      split; [apply block_ok_with_len with (bl := bl1); [exact Hb1|simpl; unfold n in *; lia]|].
+      assert (Hinit' : init_upto f' (h_len bl + n)).
+      { intros k Hk. subst f'. assert (E : (n <=? 0) = false) by (apply Z.leb_gt; lia). rewrite E.
+        destruct (Z.leb_spec (h_len bl) k); destruct (Z.ltb_spec k (h_len bl + n)); cbn [andb]; try lia.
+        - apply Hi. right. right. unfold n in *. lia.
+        - apply Hi. left. lia. }
+      split; [|exact Hinit'].
+      unfold velems. cbn [h_len slots with_hdr with_slots bl1].
+      rewrite view_seg. rewrite (seg_app f' 0 (h_len bl) n) by lia. f_equal.
+      + rewrite view_seg. apply seg_ext. intros k Hk. subst f'.
+        assert (E : (n <=? 0) = false) by (apply Z.leb_gt; lia). rewrite E.
+        destruct (Z.leb_spec (h_len bl) k); [lia|reflexivity].
+      + unfold window, slice_elems, seg. rewrite Z.add_0_l.
+        replace (r + n - r) with n by lia. apply map_ext_in. intros k Hk. apply in_seq in Hk.
+        subst f'. assert (E : (n <=? 0) = false) by (apply Z.leb_gt; lia). rewrite E.
+        destruct (Z.leb_spec (h_len bl) (h_len bl + Z.of_nat k)); [|lia].
+        destruct (Z.ltb_spec (h_len bl + Z.of_nat k) (h_len bl + n)); [|lia]. cbn [andb].
+        f_equal. f_equal. lia.
+    - exists s. split; [reflexivity|]. split; [exact Hv|]. split; [apply frame_refl|].
+      split; [exact Hb|]. split.
+      + unfold n in *. assert (d_rem d = 0) by lia. rewrite window_nil by lia. rewrite app_nil_r. reflexivity.
+      + intros k Hk. apply Hi. left. exact Hk.
+  Qed.
+
+  Hypothesis Htracked : needs_drop cfg = true.
+
+  Lemma drain_inv_destroyed s s' d b bl off i j r es :
+    drain_inv s d b bl off i j r -> destroyed s s' es -> drain_inv s' d b bl off i j r.
+  Proof.
+    intros [Hv Hb Hco Hp He Hr Ho Hi] Hd. constructor; auto.
+    destruct Hv as [H1 H2]. split; [rewrite (ds_vecs _ _ _ Hd); exact H1|rewrite (ds_heap _ _ _ Hd); exact H2].
+  Qed.
+
+  Lemma destroyed_trans s1 s2 s3 es1 es2 :
+    destroyed s1 s2 es1 -> destroyed s2 s3 es2 -> (forall e, In e es1 -> ~ In e es2) ->
+    destroyed s1 s3 (es1 ++ es2).
+  Proof.
+    intros [] [] Hdis. constructor; try congruence.
+    - intros e He. apply in_app_or in He. destruct He as [He|He].
+      + rewrite ds_out0 by (apply Hdis; exact He). apply ds_in. exact He.
+      + apply ds_in0. exact He.
+    - intros e He. rewrite ds_out0 by (intros H; apply He; apply in_or_app; right; exact H).
+      apply ds_out. intros H. apply He. apply in_or_app. left. exact H.
+  Qed.
+
+  (* the guard's first half: destroy what is left of the window (inside a cleanup a panic aborts) *)
+  Lemma drain_rest_spec : forall fuel s d b bl off i j r,
+    drain_inv s d b bl off i j r -> (Z.to_nat (j - i) < fuel)%nat ->
+    NoDup (window bl i j) -> (forall e, In e (window bl i j) -> ledger s e = Live) ->
+    post (drain_rest cfg fuel d s)
+      (fun d' s' => destroyed s s' (window bl i j) /\ drain_inv s' d' b bl off j j r /\ d_rem d' = d_rem d /\ d_fill d' = d_fill d /\ d_vec d' = d_vec d)
+      (fun _ => True).
+  Proof.
+    induction fuel as [|fuel IH]; intros s d b bl off i j r Hinv Hf Hnd Hlive; [lia|].
+    simpl drain_rest.
+    rewrite (bind_val _ _ _ _ _ (drain_next_spec _ _ _ _ _ _ _ _ Hinv)).
+    destruct (Z.ltb_spec i j) as [L|G]; cbn [fst snd].
+    - rewrite (window_cons bl i j L) in *.
+      set (e := slot_elem (slots bl i)) in *.
+      inversion Hnd as [|? ? Hnin Hnd']; subst.
+      destruct (drop_elem_live cfg Htracked s e (Hlive e (or_introl eq_refl))) as (s1 & Hd1 & He1).
+      unfold bind at 1. rewrite He1.
+      destruct (mem e (drop_panics s)); [simpl; exact I|].
+      pose proof (drain_inv_front _ _ _ _ _ _ _ _ Hinv L) as Hinv1.
+      pose proof (drain_inv_destroyed _ _ _ _ _ _ _ _ _ _ Hinv1 Hd1) as Hinv1'.
+      eapply post_weaken; [apply (IH s1 _ b bl off (i + 1) j r Hinv1' ltac:(lia) Hnd')| |auto].
+      + intros x Hx. rewrite (ds_out _ _ _ Hd1) by (intros [<-|[]]; contradiction). apply Hlive. right. exact Hx.
+      + intros d' s' (Hd2 & Hi2 & H3 & H4 & H5). split; [|auto].
+        change (e :: window bl (i + 1) j) with ([e] ++ window bl (i + 1) j).
+        eapply destroyed_trans; [exact Hd1|exact Hd2|]. intros x [<-|[]]. exact Hnin.
+    - rewrite (window_nil bl i j G). simpl. split; [apply destroyed_nil|].
+      assert (i = j) by (destruct Hinv as [_ _ _ _ _ _ Ho _]; lia). subst. auto.
+  Qed.
+
+  (* what is true after the iterator is gone, however that came about: the vector is the untouched
+     prefix followed by the untouched suffix, and exactly the elements that were still in the window
+     have been destroyed, once each *)
+  Definition drain_gone (s s' : state) (d : drain_it) (b : nat) (bl : block) (i j r : Z) : Prop :=
+    exists bl', vec_at s' (d_vec d) b bl' /\ block_ok cfg bl' /\
+                velems bl' = velems bl ++ window bl r (r + d_rem d) /\
+                init_upto (slots bl') (h_len bl') /\
+                (forall e, In e (window bl i j) -> ledger s' e = Dropped) /\
+                (forall e, ~ In e (window bl i j) -> ledger s' e = ledger s e) /\
+                next_elem s' = next_elem s.
+
+  Lemma drain_guard_spec s d b bl off i j r :
+    drain_inv s d b bl off i j r ->
+    NoDup (window bl i j) -> (forall e, In e (window bl i j) -> ledger s e = Live) ->
+    post (drain_guard cfg d s) (fun _ s' => drain_gone s s' d b bl i j r) (fun _ => True).
+  Proof.
+    intros Hinv Hnd Hlive. rewrite drain_guard_unfold.
+    eapply post_bind.
+    { apply (drain_rest_spec (window_fuel d) s d b bl off i j r Hinv); [|exact Hnd|exact Hlive].
+      unfold window_fuel. rewrite (di_pos _ _ _ _ _ _ _ _ Hinv), (di_end _ _ _ _ _ _ _ _ Hinv). lia. }
+    intros d' s1 (Hd & Hinv' & Hrem & Hfill & Hvec).
+    destruct (guard_tail_spec s1 d' b bl off j r Hinv') as (s' & Hg & Hv' & Hfr & Hb' & Hvel & Hini).
+    rewrite Hg. simpl.
+    rewrite Hvec in Hv'. rewrite Hrem in Hv', Hb', Hvel, Hini. eexists. split; [exact Hv'|]. split; [exact Hb'|].
+    split; [exact Hvel|]. split; [exact Hini|].
+    split; [|split].
+    - intros e He. rewrite (fb_ledger _ _ _ Hfr). apply (ds_in _ _ _ Hd). exact He.
+    - intros e He. rewrite (fb_ledger _ _ _ Hfr). apply (ds_out _ _ _ Hd). exact He.
+    - rewrite (fb_next _ _ _ Hfr). exact (ds_next _ _ _ Hd).
+  Qed.
+
+  (* Drain::drop, with ANY set of panicking destructors: the loop drops the rest of the window one
+     by one under the guard; when a destructor panics the guard finishes the job; in every non-aborting
+     outcome the vector is prefix ++ suffix and the window has been destroyed exactly once *)
+  Theorem drain_drop_spec : forall fuel s d b bl off i j r,
+    drain_inv s d b bl off i j r -> d_fill d = None -> (Z.to_nat (j - i) < fuel)%nat ->
+    NoDup (window bl i j) -> (forall e, In e (window bl i j) -> ledger s e = Live) ->
+    post (bind (drain_drop_loop cfg fuel (drain_guard cfg) d) (drain_guard cfg) s)
+      (fun _ s' => drain_gone s s' d b bl i j r) (fun s' => drain_gone s s' d b bl i j r).
+  Proof.
+    induction fuel as [|fuel IH]; intros s d b bl off i j r Hinv Hfill Hf Hnd Hlive; [lia|].
+    simpl drain_drop_loop. rewrite bind_assoc.
+    rewrite (bind_val _ _ _ _ _ (drain_next_spec _ _ _ _ _ _ _ _ Hinv)).
+    destruct (Z.ltb_spec i j) as [L|G]; cbn [fst snd].
+    - pose proof (window_cons bl i j L) as Hwc.
+      set (e := slot_elem (slots bl i)) in *.
+      assert (HeIn : In e (window bl i j)) by (rewrite Hwc; left; reflexivity).
+      assert (Hnd' : NoDup (window bl (i + 1) j) /\ ~ In e (window bl (i + 1) j)).
+      { rewrite Hwc in Hnd. inversion Hnd; subst. split; assumption. }
+      destruct Hnd' as [Hnd' Hnin].
+      destruct (drop_elem_live cfg Htracked s e (Hlive e HeIn)) as (s1 & Hd1 & He1).
+      pose proof (drain_inv_front _ _ _ _ _ _ _ _ Hinv L) as Hinv1.
+      pose proof (drain_inv_destroyed _ _ _ _ _ _ _ _ _ _ Hinv1 Hd1) as Hinv1'.
+      assert (Hlive1 : forall x, In x (window bl (i + 1) j) -> ledger s1 x = Live).
+      { intros x Hx. rewrite (ds_out _ _ _ Hd1) by (intros [<-|[]]; contradiction). apply Hlive. rewrite Hwc. right. exact Hx. }
+      (* what drain_gone from s1 over the rest gives for s over the whole window *)
+      assert (Hlift : forall s', drain_gone s1 s' (with_pos d (PElt b off (i + 1))) b bl (i + 1) j r -> drain_gone s s' d b bl i j r).
+      { intros s' (bl' & H1 & H2 & H3 & H4 & H5 & H6 & H7). exists bl'. simpl in *.
+        split; [exact H1|]. split; [exact H2|]. split; [exact H3|]. split; [exact H4|]. split; [|split].
+        - intros x Hx. rewrite Hwc in Hx. destruct Hx as [<-|Hx].
+          + rewrite H6 by exact Hnin. apply (ds_in _ _ _ Hd1). left. reflexivity.
+          + apply H5. exact Hx.
+        - intros x Hx. rewrite Hwc in Hx.
+          rewrite H6 by (intros H; apply Hx; right; exact H).
+          apply (ds_out _ _ _ Hd1). intros [<-|[]]. apply Hx. left. reflexivity.
+        - rewrite H7. exact (ds_next _ _ _ Hd1). }
+      rewrite bind_assoc.
+      unfold bind at 1. unfold on_unwind. rewrite He1.
+      destruct (mem e (drop_panics s)).
+      + (* the destructor panics: the guard runs as cleanup *)
+        pose proof (drain_guard_spec s1 _ b bl off (i + 1) j r Hinv1' Hnd' Hlive1) as Hg.
+        destruct (drain_guard cfg (with_pos d (PElt b off (i + 1))) s1) as [[u| | | | |] s2]; simpl in *; auto.
+      + (* the destructor returns: go on *)
+        specialize (IH s1 _ b bl off (i + 1) j r Hinv1' Hfill ltac:(lia) Hnd' Hlive1).
+        eapply post_weaken; [exact IH| |]; intros; apply Hlift; assumption.
+    - (* the window is empty: the final guard cannot panic *)
+      rewrite bind_ret.
+      assert (i = j) by (destruct Hinv as [_ _ _ _ _ _ Ho _]; lia). subst j.
+      rewrite drain_guard_unfold.
+      assert (Hrest : drain_rest cfg (window_fuel d) d s = (Val d, s)).
+      { unfold window_fuel. rewrite (di_pos _ _ _ _ _ _ _ _ Hinv), (di_end _ _ _ _ _ _ _ _ Hinv). rewrite Z.sub_diag. simpl.
+        rewrite (bind_val _ _ _ _ _ (drain_next_spec _ _ _ _ _ _ _ _ Hinv)).
+        rewrite Z.ltb_irrefl. reflexivity. }
+      rewrite (bind_val _ _ _ _ _ Hrest).
+      destruct (guard_tail_spec s d b bl off i r Hinv) as (s' & Hg & Hv' & Hfr & Hb' & Hvel & Hini).
+      rewrite Hg. simpl.
+      eexists. split; [exact Hv'|]. split; [exact Hb'|]. split; [exact Hvel|]. split; [exact Hini|].
+      rewrite (window_nil bl i i) by lia.
+      split; [intros e []|]. split; [intros e _; rewrite (fb_ledger _ _ _ Hfr); reflexivity|exact (fb_next _ _ _ Hfr)].
+  Qed.
+
+  (* the statement for Machine.drain_drop itself (Drain: no replacement iterator) *)
+  Corollary drain_drop_machine ncap tmp s d b bl off i j r :
+    drain_inv s d b bl off i j r -> d_fill d = None ->
+    NoDup (window bl i j) -> (forall e, In e (window bl i j) -> ledger s e = Live) ->
+    post (drain_drop cfg ncap tmp d s)
+      (fun _ s' => drain_gone s s' d b bl i j r) (fun s' => drain_gone s s' d b bl i j r).
+  Proof.
+    intros Hinv Hfill Hnd Hlive. unfold drain_drop. rewrite Hfill.
+    apply (drain_drop_spec (window_fuel d) s d b bl off i j r Hinv Hfill); [|exact Hnd|exact Hlive].
+    unfold window_fuel. rewrite (di_pos _ _ _ _ _ _ _ _ Hinv), (di_end _ _ _ _ _ _ _ _ Hinv). lia.
   Qed.
 End DrainIt.
